@@ -67,7 +67,7 @@ type vc26fGen struct {
 
 func (g *vc26fGen) feat(s string) { g.feats[s] = true }
 
-var vc26fKeyPool = []string{"a", "b", "key one", "é", "ünï", "日本", "😀", "it's", `q"uote`, `back\slash`, "line\nbreak", "null", "1"}
+var vc26fKeyPool = []string{"a", "b", "\xff\xfe", "a\x80b", "key one", "é", "ünï", "日本", "😀", "it's", `q"uote`, `back\slash`, "line\nbreak", "null", "1"}
 
 func (g *vc26fGen) str() string {
 	if rapid.IntRange(0, 3).Draw(g.t, "spool") > 0 {
